@@ -11,6 +11,9 @@
 (*                     (has = FALSE: get_summary raised / nothing finite)  *)
 (*   across[m]         [has, avg, var, min, max] of get_summary_across_groups *)
 (*   summp[g][m]       the same summaries after loading the rows in another order *)
+(*   acrossvals[m]     get_across_groups(metric m)                         *)
+(*   summ2, loaded2    summaries / values asked again after every accessor *)
+(*                     has been used (the statistics object has no history) *)
 (***************************************************************************)
 EXTENDS Stats, Json, IOUtils, TLC
 T == ndJsonDeserialize(IOEnv.TRACE_FILE)
@@ -38,4 +41,11 @@ T_OrderIrrelevant == Ok => \A g \in 1..R.ng : \A m \in 1..R.nm : HasSummary(Col(
 \* group/metric has at least one finite value
 T_Across == (Ok /\ \A g \in 1..R.ng : \A k \in 1..R.nm : HasSummary(Col(g, k))) =>
                 \A m \in 1..R.nm : SameSumm(R.across[m], AcrossGroups([g \in 1..R.ng |-> Col(g, m)]))
+\* get_across_groups(m): the values of metric m of all groups, group after group
+T_AcrossValues == Ok => \A m \in 1..R.nm :
+                    /\ Len(R.acrossvals[m]) = R.ng * R.ns
+                    /\ \A g \in 1..R.ng : \A i \in 1..R.ns : R.acrossvals[m][(g - 1) * R.ns + i] = LoadedCell(Col(g, m)[i])
+\* the accessors are pure observers: after using all of them the object answers as before
+T_QueriesReadOnly == Ok => /\ R.loaded2 = R.loaded
+                           /\ \A g \in 1..R.ng : \A m \in 1..R.nm : HasSummary(Col(g, m)) => SameSumm(R.summ2[g][m], Summary(Col(g, m)))
 =============================================================================
